@@ -11,6 +11,7 @@ pub struct Migrator {
     string: String,
     line: u32,
     column: u32,
+    drop_token: bool,
 }
 
 impl Default for Migrator {
@@ -21,6 +22,7 @@ impl Default for Migrator {
             string: String::new(),
             line: 1,
             column: 1,
+            drop_token: false,
         }
     }
 }
@@ -62,11 +64,14 @@ impl Migrator {
 
         let text = resource_table::get_str_value(x.text).unwrap();
 
+        // Token columns count characters, so the running column must too.
         let newlines_in_text = text.matches('\n').count() as u32;
         self.line += newlines_in_text;
-        let len = text.len() - text.rfind('\n').map(|x| x + 1).unwrap_or(0);
+        let len = text[text.rfind('\n').map(|x| x + 1).unwrap_or(0)..]
+            .chars()
+            .count();
         if newlines_in_text > 0 {
-            self.column = 1;
+            self.column = 1 + len as u32;
         } else {
             self.column += len as u32;
         }
@@ -75,7 +80,10 @@ impl Migrator {
     }
 
     fn token(&mut self, x: &VerylToken) {
-        self.push_token(&x.token);
+        // A dropped token still hands over the comments attached to it.
+        if !self.drop_token {
+            self.push_token(&x.token);
+        }
 
         for x in &x.comments {
             self.push_token(x);
@@ -96,6 +104,11 @@ impl VerylWalker for Migrator {
     fn for_statement(&mut self, arg: &ForStatement) {
         self.r#for(&arg.r#for);
         self.identifier(&arg.identifier);
+        // `: Type` is removed, comments in between are kept
+        self.drop_token = true;
+        self.colon(&arg.colon);
+        self.scalar_type(&arg.scalar_type);
+        self.drop_token = false;
         self.r#in(&arg.r#in);
         if let Some(ref x) = arg.for_statement_opt {
             self.rev(&x.rev);
